@@ -1565,6 +1565,14 @@ static void *peg_unmarshal(JanetMarshalContext *ctx) {
     size_t bytecode_len = janet_unmarshal_size(ctx);
     uint32_t num_constants = (uint32_t) janet_unmarshal_int(ctx);
 
+    /* Every bytecode word and every constant takes at least one byte of the image.
+     * Checking that up front bounds the allocation by the size of the input and
+     * keeps the size calculation below from overflowing. */
+    if (bytecode_len == 0 || bytecode_len > INT32_MAX || num_constants > INT32_MAX) {
+        janet_panic("invalid peg bytecode");
+    }
+    janet_unmarshal_ensure(ctx, bytecode_len + (size_t) num_constants - 1);
+
     /* Calculate offsets. Should match those in make_peg */
     size_t bytecode_start = size_padded(sizeof(JanetPeg), sizeof(uint32_t));
     size_t bytecode_size = bytecode_len * sizeof(uint32_t);
@@ -1605,6 +1613,8 @@ static void *peg_unmarshal(JanetMarshalContext *ctx) {
     }
 
     /* verify peg bytecode */
+    /* a rule with n words (opcode included) must lie inside the bytecode */
+#define PEG_NEED(n) do { if (blen - i < (uint32_t)(n)) goto bad; } while (0)
     int32_t has_backref = 0;
     uint32_t i = 0;
     while (i < blen) {
@@ -1612,9 +1622,14 @@ static void *peg_unmarshal(JanetMarshalContext *ctx) {
         uint32_t *rule = bytecode + i;
         op_flags[i] |= 0x02;
         switch (instr) {
-            case RULE_LITERAL:
-                i += 2 + ((rule[1] + 3) >> 2);
+            case RULE_LITERAL: {
+                /* [len, bytes...] */
+                PEG_NEED(2);
+                uint64_t words = 2 + (((uint64_t) rule[1] + 3) >> 2);
+                if (words > blen - i) goto bad;
+                i += (uint32_t) words;
                 break;
+            }
             case RULE_NCHAR:
             case RULE_NOTNCHAR:
             case RULE_RANGE:
@@ -1622,19 +1637,23 @@ static void *peg_unmarshal(JanetMarshalContext *ctx) {
             case RULE_LINE:
             case RULE_COLUMN:
                 /* [1 word] */
+                PEG_NEED(2);
                 i += 2;
                 break;
             case RULE_BACKMATCH:
                 /* [1 word] */
+                PEG_NEED(2);
                 i += 2;
                 has_backref = 1;
                 break;
             case RULE_SET:
                 /* [8 words] */
+                PEG_NEED(9);
                 i += 9;
                 break;
             case RULE_LOOK:
                 /* [offset, rule] */
+                PEG_NEED(3);
                 if (rule[2] >= blen) goto bad;
                 op_flags[rule[2]] |= 0x1;
                 i += 3;
@@ -1643,7 +1662,9 @@ static void *peg_unmarshal(JanetMarshalContext *ctx) {
             case RULE_SEQUENCE:
                 /* [len, rules...] */
             {
+                PEG_NEED(2);
                 uint32_t len = rule[1];
+                if (len > blen - i - 2) goto bad;
                 for (uint32_t j = 0; j < len; j++) {
                     if (rule[2 + j] >= blen) goto bad;
                     op_flags[rule[2 + j]] |= 0x1;
@@ -1655,6 +1676,7 @@ static void *peg_unmarshal(JanetMarshalContext *ctx) {
             case RULE_IFNOT:
             case RULE_LENPREFIX:
                 /* [rule_a, rule_b (b if not a)] */
+                PEG_NEED(3);
                 if (rule[1] >= blen) goto bad;
                 if (rule[2] >= blen) goto bad;
                 op_flags[rule[1]] |= 0x01;
@@ -1663,26 +1685,31 @@ static void *peg_unmarshal(JanetMarshalContext *ctx) {
                 break;
             case RULE_BETWEEN:
                 /* [lo, hi, rule] */
+                PEG_NEED(4);
                 if (rule[3] >= blen) goto bad;
                 op_flags[rule[3]] |= 0x01;
                 i += 4;
                 break;
             case RULE_ARGUMENT:
                 /* [searchtag, tag] */
+                PEG_NEED(3);
                 i += 3;
                 break;
             case RULE_GETTAG:
                 /* [searchtag, tag] */
+                PEG_NEED(3);
                 i += 3;
                 has_backref = 1;
                 break;
             case RULE_CONSTANT:
                 /* [constant, tag] */
+                PEG_NEED(3);
                 if (rule[1] >= clen) goto bad;
                 i += 3;
                 break;
             case RULE_CAPTURE_NUM:
                 /* [rule, base, tag] */
+                PEG_NEED(4);
                 if (rule[1] >= blen) goto bad;
                 op_flags[rule[1]] |= 0x01;
                 i += 4;
@@ -1692,6 +1719,7 @@ static void *peg_unmarshal(JanetMarshalContext *ctx) {
             case RULE_CAPTURE:
             case RULE_UNREF:
                 /* [rule, tag] */
+                PEG_NEED(3);
                 if (rule[1] >= blen) goto bad;
                 op_flags[rule[1]] |= 0x01;
                 i += 3;
@@ -1699,6 +1727,7 @@ static void *peg_unmarshal(JanetMarshalContext *ctx) {
             case RULE_REPLACE:
             case RULE_MATCHTIME:
                 /* [rule, constant, tag] */
+                PEG_NEED(4);
                 if (rule[1] >= blen) goto bad;
                 if (rule[2] >= clen) goto bad;
                 op_flags[rule[1]] |= 0x01;
@@ -1708,6 +1737,7 @@ static void *peg_unmarshal(JanetMarshalContext *ctx) {
             case RULE_TIL:
             case RULE_SPLIT:
                 /* [rule, rule] */
+                PEG_NEED(3);
                 if (rule[1] >= blen) goto bad;
                 if (rule[2] >= blen) goto bad;
                 op_flags[rule[1]] |= 0x01;
@@ -1721,17 +1751,20 @@ static void *peg_unmarshal(JanetMarshalContext *ctx) {
             case RULE_TO:
             case RULE_THRU:
                 /* [rule] */
+                PEG_NEED(2);
                 if (rule[1] >= blen) goto bad;
                 op_flags[rule[1]] |= 0x01;
                 i += 2;
                 break;
             case RULE_READINT:
                 /* [ width | (endianness << 5) | (signedness << 6), tag ] */
+                PEG_NEED(3);
                 if ((rule[1] & 0xF) > JANET_MAX_READINT_WIDTH) goto bad;
                 i += 3;
                 break;
             case RULE_NTH:
                 /* [nth, rule, tag] */
+                PEG_NEED(4);
                 if (rule[2] >= blen) goto bad;
                 op_flags[rule[2]] |= 0x01;
                 i += 4;
@@ -1740,6 +1773,8 @@ static void *peg_unmarshal(JanetMarshalContext *ctx) {
                 goto bad;
         }
     }
+
+#undef PEG_NEED
 
     /* last instruction cannot overflow */
     if (i != blen) goto bad;
